@@ -206,9 +206,9 @@ func gen(r *sim.Rng, tier string) *sim.Case {
 		p["tpos"] = r.N(1 << 16)
 		p["tbit"] = r.N(8)
 	case 6:
-		p["side"] = r.N(2)   // 0: fault while encrypting, 1: while decrypting
-		p["which"] = r.N(2)  // 0: reader fails, 1: writer fails
-		p["at"] = r.N(1<<16) // position, reduced modulo the relevant length (+1)
+		p["side"] = r.N(2)     // 0: fault while encrypting, 1: while decrypting
+		p["which"] = r.N(2)    // 0: reader fails, 1: writer fails
+		p["at"] = r.N(1 << 16) // position, reduced modulo the relevant length (+1)
 		p["fdata"] = r.N(2)
 	case 7:
 		p["glen"] = r.N(90)
